@@ -1071,9 +1071,11 @@ def attached(w: World):
 # ------------------------------------------------------------------------------------------
 # the model
 # ------------------------------------------------------------------------------------------
-def model_runs(ctx, cases, cfg="current"):
-    """cases: list of (init string, [op, ...]) -> list (one per case) of lists of (out, {id: node string})"""
-    reqs = [("treest.run", cfg, init, ";".join(op_str(o) for o in ops) if ops else "-") for init, ops in cases]
+def model_runs(ctx, cases, cfg="current", table=False):
+    """cases: list of (init string, [op, ...]) -> list (one per case) of lists of (out, {id: node string});
+    table=True: every call is one run of the table machine over Generated/TreeTable.lean (treetbl.run)"""
+    reqs = [(("treetbl.run",) if table else ("treest.run", cfg)) + (init, ";".join(op_str(o) for o in ops) if ops else "-")
+            for init, ops in cases]
     res = []
     for (init, ops), ans in zip(cases, ctx.driver().batch(reqs)):
         if ans[0] != "ok":
@@ -1639,11 +1641,11 @@ def random_walk(recipe, rng, length, **kw):
 # ------------------------------------------------------------------------------------------
 # comparison with the model
 # ------------------------------------------------------------------------------------------
-def compare_with_model(ctx, traces, cfg="current", what="tree"):
+def compare_with_model(ctx, traces, cfg="current", what="tree", table=False):
     """traces: list of Trace. Reports disagreements through ctx.disagree; returns their number."""
     cases = [(t.init, t.mops) for t in traces]
     n = 0
-    for t, steps in zip(traces, model_runs(ctx, cases, cfg)):
+    for t, steps in zip(traces, model_runs(ctx, cases, cfg, table=table)):
         for k, (out, nodes) in enumerate(steps):
             src = t.msrc[k]
             if t.out_of_model is not None and src >= t.out_of_model:
@@ -1838,6 +1840,220 @@ def exhaustive_histories(recipe, depth, level=1, limit=None, rng=None):
             nxt = rng.sample(nxt, limit)
         frontier = nxt
     return [list(h) for h in frontier]
+
+
+# ------------------------------------------------------------------------------------------
+# directed families (C09 / C10): classes of histories the pruned exhaustive argument set and the short random
+# walks of the quick tier reach only by luck. Every family is computed from the state of the world (every pair /
+# every operation of a kind), never from a particular function of the library.
+# ------------------------------------------------------------------------------------------
+def _after(recipe, prefix):
+    w = build(recipe)
+    for op in prefix:
+        apply_real(w, op)
+    return w
+
+
+def _group_chain(sh: Shadow, g):
+    """g and the containers above it that are layers (groups / artboards), innermost first"""
+    out, n = [], 0
+    while g is not None and sh.kind.get(g) in ("g", "a") and n < 50:
+        out.append(g)
+        g, n = sh.container_of(g), n + 1
+    return out
+
+
+def inserting_forms(w: World, c, x, sh=None):
+    """every way to put layer x into container c (the adopting operations + the two that take it out first)"""
+    ops = [("append", c, x), ("insert", c, 0, x), ("insert", c, -1, x), ("extend", c, (x,)),
+           ("setslice", c, 0, 0, (x,)), ("setslice", c, None, None, (x,)), ("move", x, c), ("grouplayers", (x,), c)]
+    if len(w.objs[c]._layers):
+        ops.append(("setitem", c, 0, x))
+    return ops
+
+
+def detaching_forms(w: World, c, x):
+    """every way to take the listed layer x out of its container c without putting it anywhere"""
+    i = [w.idof(y) for y in w.objs[c]._layers].index(x)
+    ops = [("delete", x), ("remove", c, x), ("pop", c, i), ("delitem", c, i), ("delslice", c, i, i + 1),
+           ("setslice", c, i, i + 1, ()), ("clear", c)]
+    spare = [d for d in w.detached() if _kind(w.objs[d]) == "l"]
+    if spare:
+        ops.append(("setitem", c, i, spare[0]))        # replaced by a loose leaf
+    return ops
+
+
+def stale_pointer_histories(recipe, prefix=()):
+    """detach -> go below -> come back: a group S is taken out of its container G (every detaching form; the removed
+    layer keeps its parent / document pointers), a former ancestor P of S is then moved BELOW S (legal on lists: S
+    lists nothing of P any more) and S is offered to a former ancestor again (every inserting form; on lists a cycle:
+    must be refused and leave the tree unchanged). Also the legal halves: detach + come back to the old container /
+    to the document, detach + former ancestor below S + S into a container that is not below it."""
+    prefix = list(prefix)
+    w = _after(recipe, prefix)
+    sh = Shadow(w)
+    hs = []
+    for S in w.groups():
+        G = sh.container_of(S)
+        if G is None:
+            continue
+        chain = _group_chain(sh, G)                  # former ancestors of S that are layers
+        outside = [c for c in w.conts() if not sh.reaches(S, c) and c not in chain][:2]
+        for d in detaching_forms(w, G, S):
+            w1 = _after(recipe, prefix + [d])
+            if S in w1.listed():
+                continue
+            for back in inserting_forms(w1, G, S)[:4] + [("move", S, G)]:
+                hs.append(prefix + [d, back])        # legal: S comes back
+            for P in chain:
+                for under in (("move", P, S), ("grouplayers", (P,), S), ("append", S, P) if P in w1.detached() else None):
+                    if under is None:
+                        continue
+                    w2 = _after(recipe, prefix + [d, under])
+                    hs.append(prefix + [d, under])
+                    for C in dict.fromkeys([G, P]):
+                        for back in inserting_forms(w2, C, S):
+                            hs.append(prefix + [d, under, back])          # cycle on lists
+                    for C in outside[:1]:
+                        hs.append(prefix + [d, under, ("move", S, C)])    # legal
+    return [list(h) for h in dict.fromkeys(tuple(h) for h in hs)]
+
+
+def group_layers_orders(recipe, prefix=()):
+    """group_layers with the layers in every order: every ordered pair and the ordered triples of the first listed
+    layers - same owner in ascending / descending stacking order, different owners, a group and a layer beside /
+    below it - without parent, and with every container as parent (refusals included)"""
+    prefix = list(prefix)
+    w = _after(recipe, prefix)
+    listed = [x for x in sorted(w.listed()) if x != BOGUS]
+    hs = []
+    for xs in list(itertools.permutations(listed, 2)) + list(itertools.permutations(listed[:5], 3)):
+        hs.append(prefix + [("grouplayers", xs, None)])
+        for c in w.conts():
+            hs.append(prefix + [("grouplayers", xs, c)])
+    return hs
+
+
+def loose_group_histories(recipe, prefix=()):
+    """pixel layers made WITHOUT a document (PixelLayer.frompil(image, None)) and layers of one document, put into a
+    loose group (Group.new(): no parent, no document), the group then inserted / moved into every container of every
+    document, moved on to the other document and taken out again: the document pointer of everything below a
+    document is evaluated on the object graph after every step"""
+    prefix = list(prefix)
+    w = _after(recipe, prefix)
+    n = len(w.objs)
+    docs, conts = w.docs(), [c for c in w.conts() if c in attached(w)]
+    hs = []
+    own = [x for x in w.plain_leaves() if x in w.listed()][:1]
+    # ids: n = documentless layer, n + 1 = loose group, n + 2 = a second loose group (nesting)
+    base = prefix + [("newlayer", None, (1, 1, 3, 3)), ("newgroup", None)]
+    fills = [[("append", n + 1, n)], [("move", n, n + 1)], [("insert", n + 1, 0, n)],
+             [("newgroup", None), ("append", n + 2, n), ("append", n + 1, n + 2)]]
+    if own:
+        fills.append([("append", n + 1, n), ("move", own[0], n + 1)])
+    for fill in fills:
+        for c in conts:
+            for put in inserting_forms(w, c, n + 1)[:5] + [("move", n + 1, c)]:
+                h = base + fill + [put]
+                hs.append(h)
+                for d in docs:
+                    if d != c:
+                        hs.append(h + [("move", n + 1, d)])
+                hs.append(h + [("delete", n + 1), ("move", n, docs[-1])])
+    # the documentless layer on its own, into every container
+    for c in conts:
+        for put in inserting_forms(w, c, n):
+            hs.append(prefix + [("newlayer", None, (1, 1, 3, 3)), put])
+    return hs
+
+
+def closing_groups_histories(recipe, prefix=()):
+    """trees where 2+ nested groups end at the same place and something follows at an outer level: every group is
+    made the LAST child of every other group (moved there, or everything after it taken out), then a layer / a group is
+    put after the outer group; for save + reopen (the closing records of nested groups)"""
+    prefix = list(prefix)
+    w = _after(recipe, prefix)
+    sh = Shadow(w)
+    hs = []
+    att = attached(w)
+    for S in w.groups():
+        for G in w.groups():
+            if S == G or sh.reaches(S, G) or G not in att:
+                continue
+            h = prefix + [("move", S, G)]
+            outer = sh.container_of(G)
+            hs.append(h)                                            # whatever follows G in its container stays
+            hs.append(h + [("newgroup", outer)])                    # an (empty) group follows
+            hs.append(h + [("newgroup", S), ("newgroup", outer)])   # three levels close at once
+            leaves = [x for x in w.plain_leaves() if x not in (S, G) and not sh.reaches(S, x) and not sh.reaches(G, x)]
+            for x in leaves[:2]:
+                hs.append(h + [("move", x, outer)])                 # a layer follows
+        G = sh.container_of(S)
+        if G is not None and sh.kind.get(G) in ("g", "a"):
+            i = sh.L[G].index(S)
+            if i + 1 < len(sh.L[G]):
+                hs.append(prefix + [("delslice", G, i + 1, None)])  # S becomes the last child where it is
+    return [list(h) for h in dict.fromkeys(tuple(h) for h in hs)]
+
+
+def sole_layer_histories(recipe, prefix=()):
+    """adoption that EMPTIES the document the layer comes from: every document is reduced to one top-level layer
+    (the others deleted), which then leaves for every container of the other documents (every inserting form that
+    takes it out first, and detach + insert)"""
+    prefix = list(prefix)
+    w = _after(recipe, prefix)
+    sh = Shadow(w)
+    hs = []
+    for d in w.docs():
+        top = list(sh.L[d])
+        others = [c for c in w.conts() if c in attached(w) and not sh.reaches(d, c)]
+        for keep in top[:3]:
+            strip = [("delete", x) for x in top if x != keep]
+            for c in others:
+                hs.append(prefix + strip + [("move", keep, c)])
+                hs.append(prefix + strip + [("grouplayers", (keep,), c)])
+                hs.append(prefix + strip + [("pop", d, 0), ("append", c, keep)])
+                hs.append(prefix + strip + [("delete", keep), ("insert", c, 0, keep)])
+    return hs
+
+
+FAMILY_TREES = [("nest", "RGB", 8), ("hid", "RGB", 8), ("board", "RGB", 8), ("two", "RGB", 8, "L"),
+                ("two", "L", 16, "RGB"), ("fixture", "group.psd")]
+FAMILIES = [("stale-pointer", stale_pointer_histories, True), ("group-layers-order", group_layers_orders, False),
+            ("loose-group", loose_group_histories, False), ("closing-groups", closing_groups_histories, True),
+            ("sole-layer", sole_layer_histories, False)]
+
+
+def deepest_group(recipe):
+    """the attached group with the longest chain of groups above it (None: no group)"""
+    w = build(recipe)
+    sh = Shadow(w)
+    att = attached(w)
+    best = None
+    for g in w.groups():
+        if g in att:
+            n = len(_group_chain(sh, g))
+            if best is None or n > best[0]:
+                best = (n, g)
+    return best[1] if best else None
+
+
+def directed_histories(rng, quick=True, only=None):
+    """[(family, recipe, history)]: every family on every FAMILY_TREES recipe, as built and (families that look at
+    nesting) with one more group inside the deepest group; a seeded sample per (family, tree) in the quick tier"""
+    out = []
+    per = 50 if quick else 2000
+    for recipe in FAMILY_TREES:
+        g = deepest_group(recipe)
+        for name, f, nesting in FAMILIES:
+            if only and name not in only:
+                continue
+            for prefix in ([[]] + ([[("newgroup", g)]] if nesting and g is not None else [])):
+                hs = f(recipe, prefix)
+                if len(hs) > per:
+                    hs = rng.sample(hs, per)
+                out += [(name, recipe, h) for h in hs]
+    return out
 
 
 def report(ctx, traces, props, shrink=True, how="search"):
